@@ -94,6 +94,7 @@ type frame struct {
 	backEdges        int
 	isPkgInit        bool
 	phisDone         bool
+	cur              ssa.Instruction
 }
 
 // protectedInitCall runs one call made directly by a package initializer;
@@ -206,7 +207,7 @@ func lookupMethod(i *interpreter, typ types.Type, meth *types.Func) *ssa.Functio
 	return i.prog.LookupMethod(typ, meth.Pkg(), meth.Name())
 }
 
-func nilDeref() { panic(targetPanic{rtError("invalid memory address or nil pointer dereference")}) }
+func nilDeref() { panic(targetPanic{v: rtError("invalid memory address or nil pointer dereference")}) }
 
 // visitInstr interprets a single ssa.Instruction within the activation
 // record frame.  It returns a continuation value indicating where to
@@ -277,7 +278,7 @@ func visitInstr(fr *frame, instr ssa.Instruction) continuation {
 		fr.runDefers()
 
 	case *ssa.Panic:
-		panic(targetPanic{fr.get(instr.X)})
+		panic(targetPanic{v: fr.get(instr.X)})
 
 	case *ssa.Send:
 		chanSend(i, fr.get(instr.Chan), fr.get(instr.X))
@@ -347,7 +348,7 @@ func visitInstr(fr *frame, instr ssa.Instruction) continuation {
 		c := i.concInt(fr.get(instr.Cap))
 		l := i.concInt(fr.get(instr.Len))
 		if l < 0 || c < l || c > 1<<24 {
-			panic(targetPanic{rtError("makeslice: len out of range")})
+			panic(targetPanic{v: rtError("makeslice: len out of range")})
 		}
 		slice := make([]value, c)
 		tElt := instr.Type().Underlying().(*types.Slice).Elem()
@@ -381,7 +382,7 @@ func visitInstr(fr *frame, instr ssa.Instruction) continuation {
 		switch x := x.(type) {
 		case []value:
 			if idx < 0 || idx >= int64(len(x)) {
-				panic(targetPanic{rtError(fmt.Sprintf("index out of range [%d] with length %d", idx, len(x)))})
+				panic(targetPanic{v: rtError(fmt.Sprintf("index out of range [%d] with length %d", idx, len(x)))})
 			}
 			fr.env[instr] = &x[idx]
 		case *value: // *array
@@ -390,7 +391,7 @@ func visitInstr(fr *frame, instr ssa.Instruction) continuation {
 			}
 			a := (*x).(array)
 			if idx < 0 || idx >= int64(len(a)) {
-				panic(targetPanic{rtError(fmt.Sprintf("index out of range [%d] with length %d", idx, len(a)))})
+				panic(targetPanic{v: rtError(fmt.Sprintf("index out of range [%d] with length %d", idx, len(a)))})
 			}
 			fr.env[instr] = &a[idx]
 		default:
@@ -412,7 +413,7 @@ func visitInstr(fr *frame, instr ssa.Instruction) continuation {
 			panic(fmt.Sprintf("unexpected x type in Index: %T", x))
 		}
 		if idx < 0 || idx >= int64(n) {
-			panic(targetPanic{rtError(fmt.Sprintf("index out of range [%d] with length %d", idx, n))})
+			panic(targetPanic{v: rtError(fmt.Sprintf("index out of range [%d] with length %d", idx, n))})
 		}
 		switch x := x.(type) {
 		case array:
@@ -429,7 +430,7 @@ func visitInstr(fr *frame, instr ssa.Instruction) continuation {
 	case *ssa.MapUpdate:
 		m := fr.get(instr.Map).(*omap)
 		if m == nil {
-			panic(targetPanic{rtError("assignment to entry in nil map")})
+			panic(targetPanic{v: rtError("assignment to entry in nil map")})
 		}
 		m.insert(i, fr.get(instr.Key), fr.get(instr.Value))
 
@@ -498,7 +499,7 @@ func prepareCall(fr *frame, call *ssa.CallCommon) (fn value, args []value, skip 
 		}
 		recv := v.(iface)
 		if recv.t == nil {
-			panic(targetPanic{rtError("invalid memory address or nil pointer dereference (method call on nil interface)")})
+			panic(targetPanic{v: rtError("invalid memory address or nil pointer dereference (method call on nil interface)")})
 		}
 		if f := lookupMethod(fr.i, recv.t, call.Method); f == nil {
 			// Unreachable in well-typed programs.
@@ -521,12 +522,12 @@ func call(i *interpreter, caller *frame, callpos token.Pos, fn value, args []val
 	switch fn := fn.(type) {
 	case *ssa.Function:
 		if fn == nil {
-			panic(targetPanic{rtError("invalid memory address or nil pointer dereference (call of nil func)")})
+			panic(targetPanic{v: rtError("invalid memory address or nil pointer dereference (call of nil func)")})
 		}
 		return callSSA(i, caller, callpos, fn, args, nil)
 	case *closure:
 		if fn == nil {
-			panic(targetPanic{rtError("invalid memory address or nil pointer dereference (call of nil func)")})
+			panic(targetPanic{v: rtError("invalid memory address or nil pointer dereference (call of nil func)")})
 		}
 		if fn.ext != nil {
 			return fn.ext(&frame{i: i, caller: caller}, args)
@@ -621,6 +622,13 @@ func runFrame(fr *frame) {
 			return // normal return
 		}
 		p := recover()
+		if tp, ok := p.(targetPanic); ok && tp.where == "" {
+			tp.where = fr.fn.String()
+			if fr.cur != nil {
+				tp.where += " (" + fr.i.prog.Fset.Position(fr.cur.Pos()).String() + ")"
+			}
+			p = tp
+		}
 		if isEnginePanic(p) {
 			if re, ok := p.(runtime.Error); ok {
 				// annotate engine defects with the target location
@@ -644,6 +652,7 @@ func runFrame(fr *frame) {
 					fmt.Fprintln(os.Stderr, "\t", instr)
 				}
 			}
+			fr.cur = instr
 			if visitInstr(fr, instr) == kReturn {
 				return
 			}
@@ -926,6 +935,9 @@ func (i *interpreter) runHarness(entry string) (status pathStatus, detail string
 			status, detail = stUnwind, p.where
 		case targetPanic:
 			status, detail = stPanic, panicString(p.v)
+			if p.where != "" && i.lp.cfg.verbose {
+				fmt.Fprintf(stderr, "target panic %s at %s\n", detail, p.where)
+			}
 			if i.vector != nil {
 				i.concreteEvents = append(i.concreteEvents, "panic "+detail)
 				return
